@@ -131,6 +131,7 @@ class TaintEngine:
         self.changed = False
         self.filter_classes: set[str] = set()     # class keys deriving from Filter
         self.config_classes: set[str] = set()     # dict subclasses (config records)
+        self.source_calls: set[str] = set()       # calls whose result is configuration that may hold URIs (text of the callee expression)
         self.source_records: set[str] = set()     # functions in which a freshly created, empty config record is a source (filled from the command line)
         self._index()
 
@@ -913,6 +914,8 @@ class _Analysis:
         kwargs = {(k.arg or '**'): self.ev(k.value, env) for k in node.keywords}
         allargs = frozenset().union(*args, *kwargs.values()) if (args or kwargs) else EMPTY
         fname = f.id if isinstance(f, ast.Name) else f.attr if isinstance(f, ast.Attribute) else ''
+        if ast.unparse(f) in self.eng.source_calls:      # a reader of another configuration file of the filter (models.toml: model locations are URIs too)
+            return frozenset([SRC, URI])
         # sanitizers
         if fname in ('unquote', 'unquote_plus', 'unquote_to_bytes', 'url2pathname') and allargs:
             return allargs | frozenset([DECODED])
